@@ -7,6 +7,7 @@ import (
 	"os"
 	"regexp"
 	"sync"
+	"time"
 )
 
 // The library's results depend only on its arguments.  To make a dependence on the process
@@ -18,6 +19,10 @@ var envWords = "nocheck cross stage1 nodoc all any amd64 i386 yes 1 terse parall
 var reEnvName = regexp.MustCompile(`^[A-Z][A-Z0-9_]{2,40}$`)
 
 func init() {
+	// a named local time zone with a non-zero offset: results that silently depend on
+	// time.Local differ from the reference
+	time.Local = time.FixedZone("EST", -5*3600)
+	os.Setenv("TZ", "EST5EDT")
 	for _, k := range []string{"DEB_BUILD_PROFILES", "DEB_BUILD_OPTIONS", "DEB_HOST_ARCH", "DEB_BUILD_ARCH", "DEB_TARGET_ARCH", "DEB_HOST_MULTIARCH",
 		"DEB_VENDOR", "DPKG_ROOT", "DPKG_COLORS", "SOURCE_DATE_EPOCH", "DEBEMAIL", "DEBFULLNAME", "GNUPGHOME"} {
 		os.Setenv(k, envWords)
